@@ -3,8 +3,8 @@ from . import hashing as H
 
 
 def check(ck):
-    H.check_descent_complete(ck, "C14.R1")
-    H.check_dotted_names(ck, "C14.R1b")
-    H.check_graph_derivation(ck, "C14.R2")
-    H.check_version_taint(ck, "C14.R3")
-    H.check_enforcement(ck, "C14.R4")
+    ck.run(H.check_descent_complete, ck, "C14.R1")
+    ck.run(H.check_dotted_names, ck, "C14.R1b")
+    ck.run(H.check_graph_derivation, ck, "C14.R2")
+    ck.run(H.check_version_taint, ck, "C14.R3")
+    ck.run(H.check_enforcement, ck, "C14.R4")
